@@ -44,6 +44,7 @@ POOL = {"float_type": [np.float64, np.float32, float, np.float16], "decimals": [
         "logger": [logging.getLogger("verif%d" % i) for i in range(5)], "factory_manager": [fl.FactoryManager() for _ in range(5)]}
 ATTR = {k: ("_factory_manager" if k == "factory_manager" else k) for k in POOL}
 class Boom(Exception): pass
+class BoomBase(BaseException): pass      # a context can be left by a BaseException that is not an Exception (KeyboardInterrupt, GeneratorExit, ...)
 '''
 
 
@@ -57,7 +58,7 @@ def level(lv):
             try:
                 if lv + 1 < depth: level(lv + 1)
                 elif assign_key is not None: setattr(st, ATTR[assign_key], VAL[(assign_key, "assigned")])
-                if raises[lv]: raise Boom()
+                if raises[lv]: raise (BoomBase() if as_base else Boom())
             finally:
                 left = dict(vars(st))
     finally:
@@ -65,7 +66,7 @@ def level(lv):
 try:
     for k in KEYS: setattr(st, ATTR[k], VAL[(k, "base")])
     try: level(0)
-    except Boom: pass
+    except (Boom, BoomBase): pass
 finally:
     vars(st).clear(); vars(st).update(saved)
 for (lv, named, entry, inside, left, after) in log:
@@ -139,6 +140,10 @@ class Boom(Exception):
     pass
 
 
+class BoomBase(BaseException):
+    """what leaves a context need not be an Exception (KeyboardInterrupt, SystemExit, GeneratorExit of a closed generator)"""
+
+
 def ob_nesting(depth, keys, assign_key, label):
     """contexts nested `depth` deep over `keys` (presence symbolic per level), exception per level symbolic, optional assignment inside"""
 
@@ -156,7 +161,8 @@ def ob_nesting(depth, keys, assign_key, label):
         # at most one level raises (an exception propagates through the outer levels anyway)
         pre = eq_axioms(ops) + [z3.Not(z3.And(a, b)) for a, b in itertools.combinations(exc_at.values(), 2)]
         fm_unset = z3.Bool("base!factory_manager!unset")
-        ins = {str(v): SymBool(v) for v in list(pres.values()) + list(exc_at.values()) + [fm_unset]}
+        as_base = z3.Bool("raise!as-base-exception")
+        ins = {str(v): SymBool(v) for v in list(pres.values()) + list(exc_at.values()) + [fm_unset, as_base]}
         for o in ops:
             if not z3.is_true(o.truthy):
                 ins[str(o.truthy)] = SymBool(o.truthy)
@@ -195,7 +201,7 @@ def ob_nesting(depth, keys, assign_key, label):
             if bool(v[str(fm_unset)]):
                 val[("factory_manager", "base")] = "None"     # the lazily initialised default: no factory manager created yet
             lines.append("VAL = {" + ", ".join(f"{kt!r}: {src}" for kt, src in val.items()) + "}")
-            lines.append(f"names = {names!r}; raises = {raises!r}; depth = {depth}; assign_key = {assign_key!r}; KEYS = {KEYS!r}")
+            lines.append(f"names = {names!r}; raises = {raises!r}; depth = {depth}; assign_key = {assign_key!r}; KEYS = {KEYS!r}; as_base = {bool(v[str(as_base)])!r}")
             lines.append(REPLAY_PROGRAM)
             lines.append(f"verdict(bool(bad), {label!r} + ': ' + '; '.join(bad))")
             return "\n".join(lines)
@@ -212,6 +218,7 @@ def ob_nesting(depth, keys, assign_key, label):
                     st._factory_manager = None
                 names = {lv: [k for k in keys if bool(SymBool(pres[(lv, k)]))] for lv in range(depth)}
                 raises = {lv: bool(SymBool(exc_at[lv])) for lv in range(depth)}
+                base_exc = any(raises.values()) and bool(SymBool(as_base))
 
                 def level(lv):
                     entry = dict(vars(st))
@@ -226,7 +233,7 @@ def ob_nesting(depth, keys, assign_key, label):
                                 elif asg is not None:
                                     setattr(st, ATTR[assign_key], asg)
                                 if raises[lv]:
-                                    raise Boom()
+                                    raise (BoomBase() if base_exc else Boom())
                             finally:
                                 left = dict(vars(st))
                     finally:
@@ -235,7 +242,7 @@ def ob_nesting(depth, keys, assign_key, label):
 
                 try:
                     level(0)
-                except Boom:
+                except (Boom, BoomBase):
                     pass
                 return log, names, raises
             finally:
